@@ -54,4 +54,14 @@ def jobs():
         js.append(Job("S2-twice@%s" % tn, "C07/c07.c", "c07_s2_twice", UNITS, extra_src=EXTRA, defines=["RTYPE=%d" % TYPES[tn]] + CUT_CLIENT, remove_bodies=RB_CLIENT,
                       unwind=18, flags=FS, group="S2-twice", timeout=900, est_gb=3,
                       desc="same %s response datagram delivered twice" % tn.upper(), bounds={"type": tn}))
+    # an ACK/RST stops "exactly the matching request": the queue search itself (coap_remove_from_queue, first entry with BOTH the session and the
+    # message id) is the C06 step harness over an arbitrary 1-2 node queue with symbolic mids and sessions
+    import copy
+    from jobs.C06 import jobs as c06_jobs
+    for j in c06_jobs():
+        if j.name.startswith("S4-remove@"):
+            j2 = copy.copy(j)
+            j2.name = "S5-queue-" + j.name
+            j2.group = "S5-queue-remove"
+            js.append(j2)
     return js
